@@ -107,7 +107,9 @@ def c15(spec, tier, seed, merged, drv, params, binary):
         cli_leg(drv, merged, binary, "c15", seed + 1, tier, cli2, params.get("cases", 100) // 4, "cli[no-adhoccounting]")
         if shutil.which("valgrind"):
             cli_leg(drv, merged, binary, "c15", seed + 2, tier, cli, params.get("valgrind_cases", 12), "valgrind",
-                    extra={"wrapper": "valgrind -q --error-exitcode=97 --leak-check=no"}, timeout=3000)
+                    extra={"wrapper": "valgrind -q --error-exitcode=97 --leak-check=no",
+                           # (25-50x slower: one small wide case and one big case per shard)
+                           "wide_cases": 1, "wide_n": 9, "big_cli_cases": 1}, timeout=3000)
         else:
             merged.inconclusive.append("valgrind not found")
 
@@ -373,7 +375,7 @@ SANITIZER_PLAN = {
             ("asan", "c05", 4, 200, {"nmax": 5})],
     "C06": [("miri", "c06", 6, 2, {}), ("asan", "c06", 8, 400, {})],
     "C07": [("miri", "c07", 4, 1, {}), ("asan", "c07", 8, 400, {})],
-    "C18": [("miri", "c18", 8, 10, {"no_exhaustive": 0}), ("asan", "c18", 8, 5000, {})],
+    "C18": [("miri", "c18", 8, 10, {}), ("asan", "c18", 8, 5000, {})],
     "C19": [("miri", "c19", 8, 1, {"threaded": 2}), ("tsan", "c19", 8, 30, {"threaded": 300}),
             ("asan", "c19", 4, 30, {"threaded": 100})],
     "C20": [("miri", "c20", 2, 2, {"exhaustive_len": 3, "prefix_take": 20})],
